@@ -87,8 +87,9 @@ class SpatialVector(SMUserList):
             self.data = [x for x in value.T]
         elif not super().arghandler(value):
             raise ValueError('bad argument to constructor')
-        # integer element types wrap around in sums, differences and negation
-        self.data = [x.astype(np.float64) if isinstance(x, np.ndarray) and x.dtype.kind in 'iub' else x for x in self.data]
+        # integer element types wrap around in sums, differences and negation,
+        # half precision overflows at 65504
+        self.data = [x.astype(np.float64) if isinstance(x, np.ndarray) and x.dtype.kind in 'iubf' and x.dtype != np.float64 else x for x in self.data]
 
         # elif isinstance(value, list):
         #     assert all(map(lambda x: base.isvector(x, 6), value)), 'all elements of list must have valid shape and value for the class'
